@@ -47,8 +47,24 @@ Theorem C07_residual_jacobian : forall relative fs ys t0 ds, derivs fs t0 ds -> 
 Proof. exact residual_jacobian. Qed.
 Print Assumptions C07_residual_jacobian.
 
+(* use_linear_correction=True: f is replaced by intercept + slope*f and the Jacobian by slope*J.  That IS the derivative of
+   the corrected residual for slope and intercept HELD FIXED at the values linregress returned (any values: they are an
+   oracle).  It is NOT claimed to be the total derivative through slope(c), intercept(c): the property text defines the
+   fitness without the correction, and the code does not differentiate through the regression. *)
+Theorem C07_linear_correction_jacobian_for_fixed_slope_and_intercept_partial :
+  forall relative slope intercept fs ys t0 ds, derivs fs t0 ds -> length ys = length fs ->
+  (relative = true -> Forall (fun y => y <> 0) ys) ->
+  derivs (residual_fs relative (corrected_fs slope intercept fs) ys) t0
+         (residual_ds relative (corrected_ds slope ds) ys).
+Proof. exact corrected_residual_jacobian. Qed.
+Print Assumptions C07_linear_correction_jacobian_for_fixed_slope_and_intercept_partial.
+
 (* each fitness call increases the evaluation counter by exactly one *)
 Theorem C07_eval_count_plus_one : forall s rel fx dfdc y,
   eval_count (fst (evaluate_fitness_vector s rel fx y)) = S (eval_count s) /\
   eval_count (fst (get_fitness_vector_and_jacobian s rel fx dfdc y)) = S (eval_count s).
+Proof. intros. split; reflexivity. Qed.
+Theorem C07_eval_count_plus_one_with_linear_correction : forall s lc rel fx dfdc y,
+  eval_count (fst (evaluate_fitness_vector_lc s lc rel fx y)) = S (eval_count s) /\
+  eval_count (fst (get_fitness_vector_and_jacobian_lc s lc rel fx dfdc y)) = S (eval_count s).
 Proof. intros. split; reflexivity. Qed.
